@@ -29,7 +29,8 @@ Inductive shaop := SSet (script sha : string) | SGet (script : string) (observed
 Record case := mkcase {
   c_kind : nat;                 (* 0 redis wrapper(s) vs raw (one or several addresses, restarts), 1 kv store vs one
                                    server, 2 breaker phases, 3 script cache stream,
-                                   4 per-command breaker acceptance runs (c_phases: one list per command) *)
+                                   4 per-command breaker acceptance runs (c_phases: one list per command),
+                                   5 per-command connection-failure runs (c_phases: one list per command) *)
   c_steps : list step;
   c_dump_w : list (string * string);   (* several addresses: keys prefixed by the index of their server *)
   c_dump_r : list (string * string);
@@ -150,10 +151,10 @@ Definition model_ok (c : case) : bool :=
   match c_kind c with
   | 2%nat =>
       match c_phases c with
-      | [pn; pc; pd] => phase_ok C12_Gen.acceptable None pn && phase_ok C12_Gen.acceptable None pc &&
-                        phase_ok C12_Gen.acceptable None pd
+      | pn :: pc :: pd :: rest => forallb (phase_ok C12_Gen.acceptable None) (pn :: pc :: pd :: rest)
       | _ => false
       end
+  | 5%nat => forallb (phase_ok C12_Gen.acceptable None) (c_phases c)
   | 3%nat => sha_model [] (c_sha c)
   | 4%nat => forallb (phase_ok C12_Gen.acceptable None) (c_phases c)
   | k => forallb (step_ok C12_Gen.acceptable k C12_Table.redis_table C12_Table.kv_table) (c_steps c) &&
@@ -164,14 +165,21 @@ Definition spec_ok (c : case) : bool :=
   match c_kind c with
   | 2%nat =>
       match c_phases c with
-      | [pn; pc; pd] =>
+      | pn :: pc :: pd :: rest =>
           (* redis.Nil and context.Canceled never trip the breaker: no call is rejected *)
           phase_ok doc_acceptable (Some ENil) pn && phase_ok doc_acceptable (Some ECanceled) pc &&
-          (* connection-level failures are counted, and eventually calls are rejected *)
-          phase_ok doc_acceptable None pd && forallb (fun en => is_conn (fst en)) pd &&
-          existsb (fun en => err_eqb (fst en) EUnavailable) pd
+          (* connection-level failures -- refused connections (pd), and peers that accept, read the request and
+             then hang up (bare io.EOF), reset the connection, or never answer (rest) -- are counted, on every
+             command kind, and eventually calls are rejected *)
+          forallb (fun ph => phase_ok doc_acceptable None ph && forallb (fun en => is_conn (fst en)) ph &&
+                             existsb (fun en => err_eqb (fst en) EUnavailable) ph) (pd :: rest)
       | _ => false
       end
+  | 5%nat =>
+      (* per command, recording breaker: every call against a failing peer ends in a connection-level error that is
+         reported to the breaker as a failure *)
+      forallb (fun run => forallb (fun en => match fst en with EOther _ => Nat.eqb (snd en) 3 | _ => false end) run)
+              (c_phases c)
   | 3%nat => sha_spec [] (c_sha c)
   | 4%nat =>
       (* per-command runs on a fresh handle with the real breaker: every reply is nil / redis.Nil / context.Canceled,
